@@ -85,14 +85,16 @@ def checkWireKey (h : List Item × List Item) (rib : Option Nat × Option Nat) :
   | some c => some c
   | none => cmp "bmp-post" (held h.2) rib.2
 
+/-- A key the table holds as a GR-retained (stale) route of an ended session is not judged: the
+    subscriber was told PeerDown for that session (DESIGN §4.0; retention is C10's subject). -/
 def checkKeys (cl : Key → String → String) (f : List Item × List Item → Option Nat × Option Nat → Option String) :
-    Nat → List Key → List (List Item × List Item) → List (Option Nat × Option Nat) → Option (Nat × String)
-  | _, [], [], [] => none
-  | pos, k :: ks, h :: hs, r :: rs =>
-      match f h r with
+    Nat → List Key → List (List Item × List Item) → List (Option Nat × Option Nat) → List Bool → Option (Nat × String)
+  | _, [], [], [], [] => none
+  | pos, k :: ks, h :: hs, r :: rs, st :: sts =>
+      match (if st then none else f h r) with
       | some c => some (pos, cl k c)
-      | none => checkKeys cl f (pos + 1) ks hs rs
-  | pos, _, _, _ => some (pos, "shape")
+      | none => checkKeys cl f (pos + 1) ks hs rs sts
+  | pos, _, _, _, _ => some (pos, "shape")
 
 /-- failure class on a BMP connection: a disagreement about a peer for which no PeerUp was ever
     written on this connection is reported as `unannounced-…` -/
@@ -150,33 +152,35 @@ def checkWatchKey (init post : Bool) (h : List Item × List Item) (rib : Option 
   if init then cmp pfx (held hh) rr
   else if touched hh then cmp ("nosnap-" ++ pfx) (held hh) rr else none
 
-def checkSub (c : Case) (u : List Key) (rib : List (Option Nat × Option Nat)) (s : SubObs) : Option (Nat × String) :=
+def checkSub (c : Case) (u : List Key) (rib : List (Option Nat × Option Nat)) (stale : List Bool) (s : SubObs) :
+    Option (Nat × String) :=
   if s.kind == 1 then
     if !(s.wctl.all fun l => downsFollowUps l []) then some (0, "bmp-peerdown-without-peerup")
     else if !sessionsOk c then none
-    else checkKeys (wireCls c s.wctl) checkWireKey 0 u s.whist rib
+    else checkKeys (wireCls c s.wctl) checkWireKey 0 u s.whist rib stale
   else if s.kind == 2 then checkMrtKeys c 0 u s.whist rib
   else if s.kind == 3 || s.kind == 4 then
     if !(s.wctl.all fun l => downsFollowUps l []) then some (0, "watch-peerdown-without-peerup")
     else if !sessionsOk c then none
-    else checkKeys (wireCls c s.wctl) (checkWatchKey s.want (s.kind == 4)) 0 u s.whist rib
+    else checkKeys (wireCls c s.wctl) (checkWatchKey s.want (s.kind == 4)) 0 u s.whist rib stale
   else if !downsFollowUps s.fwd [] then some (0, "peerdown-without-peerup")
   else if !s.live then none     -- an unsubscribed subscriber is promised nothing more
   else if s.want && !(s.ctl.contains .eos) then some (0, "no-end-of-snapshot")
-  else checkKeys (cls c) (checkKey s.want) 0 u s.hist rib
+  else checkKeys (cls c) (checkKey s.want) 0 u s.hist rib stale
 
-def checkSubs (c : Case) (u : List Key) (rib : List (Option Nat × Option Nat)) : Nat → List SubObs → Verdict
+def checkSubs (c : Case) (u : List Key) (rib : List (Option Nat × Option Nat)) (stale : List Bool) :
+    Nat → List SubObs → Verdict
   | _, [] => .ok
   | i, s :: r =>
-      match checkSub c u rib s with
+      match checkSub c u rib stale s with
       | some (pos, cl) => .fail i pos cl
-      | none => checkSubs c u rib (i + 1) r
+      | none => checkSubs c u rib stale (i + 1) r
 
 /-- The reference checker. -/
 def check (c : Case) (o : Obs) : Verdict :=
   if !o.finished then .fail 0 0 "not-finished"
   else if o.extra != 0 then .fail 0 0 "unknown-key"
   else if o.staleList then .fail 0 0 "stale-subscriber-list"
-  else checkSubs c (keyUniverse c) o.rib 0 o.subs
+  else checkSubs c (keyUniverse c) o.rib o.stale 0 o.subs
 
 end Rbgp.Monitor.Spec
